@@ -50,7 +50,7 @@ ASSUMPTIONS = list(_ASSUMPTIONS_VIRTUAL)
 
 _F = {
     "inc": lambda s: (s or 0) + 1 if not isinstance(s, str) else s + "+",
-    "double": lambda s: 2 * s if s is not None else 1,
+    "double": lambda s: 1 if s is None else ((s + s)[:6] if isinstance(s, str) else 2 * s),
     "none": lambda s: None,
     "const": lambda s: s,
     "append": lambda s: (s if isinstance(s, tuple) else (s,)) + (len(s) if isinstance(s, tuple) else 0,),
@@ -70,6 +70,10 @@ def _build(kind, init, verdict, handled):
 
         return inner, CatchScheduler(inner, handler), base
     return inner, inner, base
+
+
+class _Runaway(BaseException):
+    """The periodic action was invoked more often than any accepted outcome allows (breaks out of the run)."""
 
 
 class _Driver:
@@ -143,8 +147,17 @@ def _run_periodic(case):
     raised = []
     cls = [kind, "f:" + case["f"]]
 
+    horizon = sum(d for d, _ in case["steps"])
+    terminates = stop is not None or raise_at is not None
+    use_start = bool(case["start"] and terminates)
+    if use_start:
+        horizon = 10**9
+    lo, hi = _expected_count(period, horizon, stop, raise_at)
+
     def action(state):
         k = len(log) + 1
+        if k > hi + 3:
+            raise _Runaway()  # periodic work that should have stopped goes on: break out of start()/advance_*
         log.append([drv.now(), canon(state)])
         if stop is not None and stop[0] == "in" and k == stop[1]:
             holder["d"].dispose()
@@ -170,20 +183,16 @@ def _run_periodic(case):
             target_sched.schedule_absolute(enc_abs(base, init + t0, "num"), lambda s, st_=None: create(s))
             if t0:
                 inner.advance_to(enc_abs(base, init + t0, "num"))
-        horizon = sum(d for d, _ in case["steps"])
-        terminates = stop is not None or raise_at is not None
-        use_start = bool(case["start"] and terminates)
-        steps = case["steps"]
-        drv.run(steps, use_start)
+        drv.run(case["steps"], use_start)
         if use_start:
-            horizon = 10**9
             # after start() returned (the periodic work stopped): one more chunk in which nothing may be invoked
             drv.run([(3 * period, "by_num")], False)
+    except _Runaway:
+        inner.stop()
     except Exception as e:  # noqa: BLE001
         return escaped(e, f"{kind}.schedule_periodic", f"case={case}", cls)
 
     n = len(log)
-    lo, hi = _expected_count(period, horizon, stop, raise_at)
     origin = init + t0
     states, s = [], _S0[case["s0"]]
     for _ in range(max(n, hi)):
